@@ -117,7 +117,12 @@ func Natural() []Seed {
 		if rs.First != "" {
 			if fl, ok := resolve(rs.First); ok {
 				out = append(out, Seed{Name: rs.Name, First: fl, Data: data})
-				continue
+				// a fixture whose recorded first layer fails at once was recorded with the type the
+				// test looks up, not the one it decodes from: it is also tried against every first
+				// layer like an unrecorded one
+				if decodeScore(data, fl) > 0 {
+					continue
+				}
 			}
 		}
 		if len(data) < 4 {
@@ -179,7 +184,8 @@ func PerType(nat []Seed, maxPerType int) []TSeed {
 			return
 		}
 		k := fl.Name + "|" + strconv.Itoa(len(d)) + "|" + string(d[:min(len(d), 48)])
-		if seen[k] || count[fl.Name] >= maxPerType {
+		// hand-built idiom seeds (cmd/mkidioms) are few and always kept
+		if seen[k] || (count[fl.Name] >= maxPerType && !strings.HasPrefix(name, "idiom:")) {
 			return
 		}
 		seen[k] = true
